@@ -75,7 +75,7 @@ DSP = ["DataMatrixBuilder::encode_str", "data::utf8_to_latin1"]
 reg("str_dispatch_ascii", "lib", ["C14"], cap=900, stubbing=True, bounds="every one-character string U+0000..=U+007F; DataMatrixBuilder::encode_eci replaced by a recording stub", encodes=DSP)
 reg("str_dispatch_2byte", "lib", ["C14"], cap=900, stubbing=True, bounds="every one-character string U+0080..=U+07FF; same stub", encodes=DSP)
 reg("str_dispatch_2ascii", "lib", ["C14"], cap=1200, stubbing=True, bounds="every two-character string over U+0000..=U+007F; same stub", encodes=DSP)
-reg("str_dispatch_3byte", "lib", ["C14"], cap=1800, tier=T, stubbing=True, bounds="every one-character string U+0800..=U+FFFF (no surrogates); same stub", encodes=DSP)
+reg("str_dispatch_3byte", "lib", ["C14"], cap=2400, tier=T, role="attempt", stubbing=True, bounds="every one-character string U+0800..=U+FFFF (no surrogates); same stub", encodes=DSP)
 
 # --------------------------------------------------------------------------- encoders (C02, C11, C01), prelude (C16), ECI writer (C15)
 _enc_fn = {"ascii": ["encodation::ascii::encode"], "c40": ["encodation::c40::encode", "c40::encode_generic", "c40::handle_end", "c40::write_three_values"],
@@ -151,19 +151,19 @@ for n in ("5_11", "12_18", "20", "22", "24", "27", "28", "32", "34", "36", "38",
         bounds="degree(s) %s: one LFSR step from an ARBITRARY register state (k symbolic bytes) with an arbitrary data byte == (old*x + a*x^k) mod g coefficient-wise in shift-xor arithmetic (one inductive step => any data length)" % n.replace("_", "..")
         , encodes=["errorcode::ecc_block", "errorcode::generator"])
 for n in ("sq52", "sq64", "sq72", "sq80", "sq88", "sq96", "sq104", "sq120", "sq132", "sq144", "sq10", "r16x48"):
-    reg("rs_glue_" + n, "ec", ["C06", "C01"], cap=2400, mem_gb=8 if n in ("sq10", "r16x48") else 16, stubbing=True, tier=Q if n in ("sq52", "sq10", "r16x48") else T, role="attempt" if n in ("sq104", "sq120", "sq132", "sq144") else "lemma",
+    reg("rs_glue_" + n, "ec", ["C06", "C01"], cap=2400, mem_gb=8 if n in ("sq10", "r16x48") else 16, stubbing=True, tier=Q if n in ("sq52", "sq10", "r16x48") else T, role="attempt" if n in ("sq72", "sq80", "sq88", "sq96", "sq104", "sq120", "sq132", "sq144") else "lemma",
         qprops=["C06", "C01"] if n == "sq10" else ["C06"],
         bounds="%s: data = fixed pattern with the first and last codeword of every block symbolic; ecc_block replaced by a recording stub (count, first, last, rotating xor): block q receives exactly the codewords q, q+B, q+2B, ... and its result is written to positions q, q+B, ..." % n,
         encodes=["errorcode::encode_error"])
 for n in ("sq52", "sq10", "r16x48"):
-    reg("rs_gluefull_" + n, "ec", ["C06"], cap=2400, mem_gb=8, stubbing=True, tier=T if n == "sq52" else Q,
+    reg("rs_gluefull_" + n, "ec", ["C06"], cap=2400, mem_gb=16 if n == "sq52" else 8, stubbing=True, tier=T if n == "sq52" else Q, role="attempt" if n == "sq52" else "lemma",
         bounds="%s: EVERY data codeword symbolic; ecc_block replaced by a recording stub: block q receives exactly the codewords q, q+B, ... and its result is written to positions q, q+B, ..." % n, encodes=["errorcode::encode_error"])
 for n in ("sq144", "sq132", "sq120", "sq104", "sq64"):
-    reg("rs_gluelight_" + n, "ec", ["C06", "C01"], cap=1200 if n == "sq64" else 5400, mem_gb=8 if n == "sq64" else 16, stubbing=True, tier=Q if n == "sq64" else T, qprops=["C06"],
+    reg("rs_gluelight_" + n, "ec", ["C06", "C01"], cap=1200 if n == "sq64" else 5400, mem_gb=8 if n == "sq64" else 16, stubbing=True, tier=Q if n == "sq64" else T, role="lemma" if n == "sq64" else "attempt", qprops=["C06"],
         bounds="%s: ecc_block replaced by a stub recording the exact size hint and the first element of the block iterator: block q is handed exactly ceil((n-q)/B) codewords starting with codeword q, results interleaved at q, q+B, ...; first codeword of every block symbolic" % n,
         encodes=["errorcode::encode_error"])
 reg("rs_il_sq10", "ec", ["C06", "C01"], cap=600, bounds="10x10: all data zero except the last codeword (symbolic): error codewords == a*x^k mod g at the interleaved positions", encodes=["errorcode::encode_error", "errorcode::ecc_block"])
-reg("rs_il_r8x32", "ec", ["C06"], cap=900, tier=T, bounds="8x32: same", encodes=["errorcode::encode_error"])
+reg("rs_il_r8x32", "ec", ["C06"], cap=1800, tier=T, role="attempt", bounds="8x32: same", encodes=["errorcode::encode_error"])
 for n in ("sq52", "sq64", "sq144"):
     reg("rs_il_" + n, "ec", ["C06", "C01"], cap=3600, mem_gb=28, tier=T, role="attempt",
         bounds="%s (interleaved blocks): all data codewords zero except the last one of every block (symbolic)" % n, encodes=["errorcode::encode_error", "errorcode::ecc_block"])
@@ -177,7 +177,7 @@ for n in ("k2_z0", "k2_z1", "k3_z0", "k3_z1", "k3_z2", "k4_z0", "k4_z1", "k4_z2"
     reg("ld_np_" + n, "synd", ["C05"], profiles=["rel"], cap=900,
         bounds="Levinson-Durbin on a syndrome vector of length k with z literal leading zeros (%s), first non-zero syndrome a constant, the rest symbolic: no panic, locator shape; Err only if the first t syndromes vanish" % n, encodes=LD)
 for n in ("k6_z0", "k6_z1", "k6_z2", "k7_z0", "k7_z1", "k7_z2", "k7_z3"):
-    reg("ld_np_" + n, "synd", ["C05"], profiles=["rel"], tier=T, cap=1800, bounds="same, %s" % n, encodes=LD)
+    reg("ld_np_" + n, "synd", ["C05"], profiles=["rel"], tier=T, cap=1800, role="attempt", bounds="same, %s" % n, encodes=LD)
 for n, tier, role in (("k2_z0", Q, "lemma"), ("k3_z0", Q, "lemma"), ("k4_z1", Q, "lemma"), ("k5_z1", Q, "lemma"), ("k7_z2", T, "lemma"),
                       ("k4_z0", T, "attempt"), ("k5_z0", T, "attempt"), ("k6_z0", T, "attempt"), ("k6_z1", T, "attempt"), ("k6_z2", T, "attempt")):
     reg("ld_ct_" + n, "synd", ["C09"], profiles=["rel"], tier=tier, role=role, cap=900 if tier == Q else 3600,
@@ -209,6 +209,7 @@ _q_shapes = ("sq10", "sq12", "sq14", "sq16", "r8x18", "r8x32", "r12x26", "r8x48"
 for n in ("sq10", "sq12", "sq14", "sq16", "sq18", "sq20", "sq22", "sq24", "sq26", "sq32", "sq36", "sq40", "sq44", "r8x18", "r8x32", "r12x26", "r12x36", "r16x36", "r16x48",
           "r8x48", "r8x64", "r8x80", "r8x96", "r8x120", "r8x144", "r12x64", "r12x88", "r16x64", "r20x36", "r20x44", "r20x64", "r22x48", "r24x48", "r24x64", "r26x40", "r26x48", "r26x64"):
     reg("pl_idx_" + n, "place", ["C07", "C01"], tier=Q if n in _q_shapes else T, cap=1800 if n in _q_shapes else 3600, mem_gb=8 if n in _q_shapes else 16,
+        role="attempt" if n in ("sq36", "sq40", "sq44", "r20x64", "r24x48", "r24x64", "r26x48", "r26x64", "r26x40", "r12x88", "r8x144", "r16x64", "sq32") else "lemma",
         qprops=["C07", "C01"] if n in ("sq10", "r8x18") else ["C07"],
         bounds="closed term, shape %s: the complete traversal vs Annex F (+ DMRE row wrap): every (codeword, bit) on the standard's module, bijection, untouched = fixed corner pattern" % n, encodes=PL)
 reg("pl_cell_any", "place", ["C07"], cap=2400, bounds="symbolic even mapping matrix 6..=132 x 6..=132, symbolic (i, j) inside it: utah / corner1-4 / idx vs the standard's module()", encodes=PL[1:])
@@ -216,7 +217,7 @@ for n, tier in (("sq10", T), ("sq12", T), ("r8x18", T)):
     reg("pl_rw_" + n, "place", ["C07", "C01"], cap=3600, mem_gb=24, tier=tier, role="attempt", bounds="%s: all codewords of the symbol symbolic: module == bit of the codeword at the standard's position; codewords() inverts" % n,
         encodes=["placement::MatrixMap::new_with_codewords", "copy_from_codewords", "traverse_mut", "bits_mut", "write_padding", "codewords", "traverse"] + PL)
 for n, tier in (("sq10", Q), ("r8x18", Q), ("r8x32", T), ("r12x36", T), ("r8x64", T), ("sq32", T)):
-    reg("fd_render_" + n, "place", ["C08", "C01"], cap=2400, mem_gb=8 if tier == Q else 16, tier=tier, role="attempt" if n == "sq32" else "lemma",
+    reg("fd_render_" + n, "place", ["C08", "C01"], cap=2400, mem_gb=8 if tier == Q else 16, tier=tier, role="attempt" if n in ("sq32", "r12x36", "r8x64") else "lemma",
         qprops=["C08", "C01"] if n == "sq10" else ["C08"],
         bounds="%s: every mapping-matrix entry symbolic: each module of bitmap() is the standard's finder/clock/alignment value or the entry at the region-offset position" % n, encodes=["placement::MatrixMap::bitmap", "placement::MatrixMap::new"])
 TFB = ["placement::MatrixMap::try_from_bits", "placement::MatrixMap::bitmap"]
